@@ -67,7 +67,18 @@ func ruleSuffix(c *Ctx) {
 	if dcParam == nil && len(fn.Params) >= 2 {
 		dcParam = fn.Params[1]
 	}
-	found, _ := guardControlsReturn(fn, relMatcher("==", anyVal, same(dcParam)), func(r *ssa.Return) bool { return retIsNilErr(r) })
+	found := false
+	// (on the very edge on which the stored dc-location equals the requested one the stored suffix is answered)
+	for _, b := range fn.Blocks {
+		if iff, ok := b.Instrs[len(b.Instrs)-1].(*ssa.If); ok {
+			for si := 0; si < 2; si++ {
+				cond, pos := normCond(iff.Cond, si == 0)
+				if relMatcher("==", anyVal, same(dcParam))(cond, pos) && edgeLeadsStraightTo(b, si, func(r *ssa.Return) bool { return retIsNilErr(r) }) {
+					found = true
+				}
+			}
+		}
+	}
 	if !found {
 		// the same decision written as a map lookup: if s, ok := stored[dcLocation]; ok { return s, nil }
 		for _, b := range fn.Blocks {
